@@ -84,6 +84,7 @@ pub fn rune_tx(g: &mut Gen, rng: &mut Rng, avail: &mut Vec<Avail>, model: &Model
   }
   let want_etching = rng.chance(2, 5);
   let mut commit_input: Option<usize> = None;
+  let mut twin_commit: Option<usize> = None;
   if want_etching {
     // choose the kind of commitment input
     let kind = rng.below(10);
@@ -98,6 +99,26 @@ pub fn rune_tx(g: &mut Gen, rng: &mut Rng, avail: &mut Vec<Avail>, model: &Model
       commit_input = Some(inputs.len() - 1);
     } else if let Some(pos) = inputs.iter().position(|a| pred(a)) {
       commit_input = Some(pos);
+    }
+    // a sibling output of the same earlier transaction with the *other*
+    // script type, spent by an input that carries the same commitment: only
+    // the taproot one counts, whatever the order of the two inputs
+    if let Some(ci) = commit_input
+      && rng.chance(1, 3)
+    {
+      let txid = inputs[ci].outpoint.txid;
+      let taproot = is_p2tr(&inputs[ci].script);
+      if let Some(pos) = avail.iter().position(|a| a.outpoint.txid == txid && is_p2tr(&a.script) != taproot && !a.same_block) {
+        let sibling = avail.swap_remove(pos);
+        if rng.chance(1, 2) {
+          inputs.insert(ci, sibling);
+          commit_input = Some(ci + 1);
+          twin_commit = Some(ci);
+        } else {
+          inputs.push(sibling);
+          twin_commit = Some(inputs.len() - 1);
+        }
+      }
     }
   }
   let total: u64 = inputs.iter().map(|a| a.value).sum();
@@ -168,6 +189,9 @@ pub fn rune_tx(g: &mut Gen, rng: &mut Rng, avail: &mut Vec<Avail>, model: &Model
       w.push([0xc0u8; 33]);
       // sometimes attach it to another input than the aged taproot one
       let at = if rng.chance(1, 8) { rng.below(inputs.len() as u64) as usize } else { ci };
+      if let Some(t) = twin_commit {
+        witnesses[t] = w.clone();
+      }
       witnesses[at] = w;
     }
     if named && g.runes.names.len() < 32 {
